@@ -918,6 +918,141 @@ func genOwnFacts(repo string, pkgs map[string]*pkgInfo, b *strings.Builder) erro
 	return nil
 }
 
+// ---------------- census of the holders of a pooled object ----------------
+// c08Owns is a hand-written table.  For the pools whose Get / Put are wrapped in package functions this pass
+// lists EVERY function of the package that calls the wrappers: a function that newly takes an object from
+// the pool (a temporary collector for nested arrays, say) has no ownership fact and fails holder_ok.  Per
+// holder: the variable bound by x := get(), the number of get() and put(...) calls, and every occurrence of
+// x.<field> (the slice fields of the pooled struct) that is not x.f[i], range x.f, len(x.f) / cap(x.f): a
+// reference to the object's backing array stored or handed on (append(s.elems, x.elems)) outlives the Put.
+type holderSpec struct {
+	Pool   string
+	Dir    string
+	Get    string
+	Put    string
+	Fields []string
+}
+
+var c08Holders = []holderSpec{
+	{"sliceArrayEncoder", "zapcore", "getSliceEncoder", "putSliceEncoder", []string{"elems"}},
+}
+
+func c08FuncLabel(fd *ast.FuncDecl) string {
+	if r := c08RecvTypeName(fd); r != "" {
+		return r + "." + fd.Name.Name
+	}
+	return fd.Name.Name
+}
+
+func genHolderFacts(repo string, pkgs map[string]*pkgInfo, b *strings.Builder) error {
+	b.WriteString("\n(* every function that calls the Get / Put wrapper of a pool: variable, number of Gets and Puts, escaping storage *)\n")
+	b.WriteString("Definition pool_holders : list pholder := [\n")
+	var rows []string
+	for _, sp := range c08Holders {
+		p := pkgs[sp.Dir]
+		if p == nil {
+			var err error
+			p, err = loadPkg(filepath.Join(repo, sp.Dir))
+			if err != nil {
+				return err
+			}
+			pkgs[sp.Dir] = p
+		}
+		isField := map[string]bool{}
+		for _, f := range sp.Fields {
+			isField[f] = true
+		}
+		found := 0
+		for _, f := range p.files {
+			for _, d := range f.Decls {
+				fd, ok := d.(*ast.FuncDecl)
+				if !ok || fd.Body == nil || fd.Name.Name == sp.Get || fd.Name.Name == sp.Put {
+					continue
+				}
+				gets, puts := 0, 0
+				vars := map[string]bool{}
+				var order []string
+				ast.Inspect(fd.Body, func(n ast.Node) bool {
+					switch v := n.(type) {
+					case *ast.CallExpr:
+						if id, ok := v.Fun.(*ast.Ident); ok {
+							if id.Name == sp.Get {
+								gets++
+							}
+							if id.Name == sp.Put {
+								puts++
+							}
+						}
+					case *ast.AssignStmt:
+						for i, r := range v.Rhs {
+							c, ok := r.(*ast.CallExpr)
+							if !ok || i >= len(v.Lhs) {
+								continue
+							}
+							if id, ok := c.Fun.(*ast.Ident); ok && id.Name == sp.Get {
+								if l, ok := v.Lhs[i].(*ast.Ident); ok && !vars[l.Name] {
+									vars[l.Name] = true
+									order = append(order, l.Name)
+								}
+							}
+						}
+					}
+					return true
+				})
+				if gets+puts == 0 {
+					continue
+				}
+				found++
+				// escapes: x.f outside x.f[i] / range x.f / len(x.f) / cap(x.f)
+				var esc []string
+				var stack []ast.Node
+				ast.Inspect(fd.Body, func(n ast.Node) bool {
+					if n == nil {
+						stack = stack[:len(stack)-1]
+						return true
+					}
+					if sel, ok := n.(*ast.SelectorExpr); ok && isField[sel.Sel.Name] {
+						if id, ok := sel.X.(*ast.Ident); ok && vars[id.Name] && len(stack) > 0 {
+							allowed := false
+							switch par := stack[len(stack)-1].(type) {
+							case *ast.IndexExpr:
+								allowed = par.X == ast.Expr(sel)
+							case *ast.RangeStmt:
+								allowed = par.X == ast.Expr(sel)
+							case *ast.CallExpr:
+								if fid, ok := par.Fun.(*ast.Ident); ok && (fid.Name == "len" || fid.Name == "cap") {
+									allowed = true
+								}
+							}
+							if !allowed {
+								txt := strings.Join(strings.Fields(p.src(stack[len(stack)-1])), " ")
+								if len(txt) > 90 {
+									txt = txt[:90] + "..."
+								}
+								esc = append(esc, `"`+strings.ReplaceAll(txt, `"`, `'`)+`"`)
+							}
+						}
+					}
+					stack = append(stack, n)
+					return true
+				})
+				v := "?"
+				if len(order) > 0 {
+					v = strings.Join(order, ",")
+				}
+				rows = append(rows, fmt.Sprintf("  {| ph_pool := \"%s\"; ph_fn := \"%s\"; ph_var := \"%s\"; ph_gets := %d; ph_puts := %d; ph_escapes := [%s] |}",
+					sp.Pool, c08FuncLabel(fd), v, gets, puts, strings.Join(esc, "; ")))
+			}
+		}
+		if found == 0 {
+			return fmt.Errorf("%s: no function calls %s / %s any more: the census of holders needs the new names", sp.Pool, sp.Get, sp.Put)
+		}
+	}
+	b.WriteString(strings.Join(rows, ";\n"))
+	b.WriteString("\n].\n")
+	return nil
+}
+
 // ---------------- family-wide state facts ----------------
 // clone() copies the POINTER to the EncoderConfig: a logger's long-lived encoder, the per-call clone
 // EncodeEntry works on and every encoder derived through With / Named / Clone share one configuration.
@@ -1401,6 +1536,9 @@ func genPoolFacts(repo, out string) error {
 		return err
 	}
 	if err := genSharedFacts(repo, pkgs, &b); err != nil {
+		return err
+	}
+	if err := genHolderFacts(repo, pkgs, &b); err != nil {
 		return err
 	}
 	path := filepath.Join(out, "PoolFacts.v")
